@@ -276,6 +276,39 @@ def dedupe_overlaps(reqs):
     return out
 
 
+def bits_sessions(rnd, n, prefix="bits"):
+    """BOOL arrays of 1-4 DWORDs and integer tags: systematic boundary requests (last bit, ranges ending at the end,
+    whole array) and several bit writes of one word in one call, incl. the same bit written twice."""
+    out = []
+    for i in range(n):
+        nd = rnd.choice([1, 2, 2, 3, 4])
+        nb = 32 * nd
+        big = [{"name": "Flags", "code": 0xD3, "dims": [nd]}, {"name": "Wd", "code": rnd.choice([0xC2, 0xC3, 0xC4, 0xC5]), "dims": []},
+               {"name": "Wa", "code": 0xC4, "dims": [3]}]
+        sc = session(rnd, i, prefix=prefix, n_calls=0, big=big, n_tags=2)
+        width = {0xC2: 8, 0xC3: 16, 0xC4: 32, 0xC5: 64}[big[1]["code"]]
+        reads = [R([("Flags", [j])]) for j in sorted({0, 1, 31, 32 % nb, nb - 1, nb - 2, rnd.randint(0, nb - 1)})]
+        reads += [R([("Flags", [j])], count=nb - j) for j in sorted({0, nb - 32, nb - 1, nb - 2, 32 % nb})]
+        reads += [R([("Flags", [])], count=c) for c in sorted({nb, 32, nb - 1, 2})] + [R([("Flags", [])])]
+        reads += [R([("Wd", [])], bit=b) for b in sorted({0, 1, width - 1, rnd.randint(0, width - 1)})] + [R([("Wa", [2])], bit=31)]
+        rnd.shuffle(reads)
+        calls = [{"api": "open"}, S.read_call(reads[:len(reads) // 2]), S.read_call(reads[len(reads) // 2:])]
+        b1, b2 = rnd.sample(range(width), 2)
+        dup = [R([("Wd", [])], bit=b1, value=False), R([("Wd", [])], bit=b2, value=True), R([("Wd", [])], bit=b1, value=True)]
+        if rnd.random() < 0.5:
+            dup = [R([("Wd", [])], bit=b1, value=True), R([("Wd", [])], bit=b1, value=False), R([("Wa", [1])], bit=b1 % 32, value=True)]
+        calls += [S.write_call(dup), S.read_call([R([("Wd", [])]), R([("Wd", [])], bit=b1), R([("Wa", [])], count=3)])]
+        j = rnd.choice([0, nb - 32])
+        vals = [rnd.random() < 0.5 for _ in range(nb - j)]
+        calls += [S.write_call([R([("Flags", [j])], count=nb - j, value=vals)]), S.read_call([R([("Flags", [])], count=nb)]),
+                  S.write_call([R([("Flags", [nb - 1])], value=True), R([("Flags", [0])], value=False)]), S.read_call([R([("Flags", [])], count=nb)]),
+                  {"api": "close"}]
+        sc["calls"] = calls
+        sc["family"] = "logix-bits"
+        out.append(sc)
+    return out
+
+
 def cross_section(rnd, n, prefix="x"):
     return [session(rnd, i, prefix=prefix, n_calls=3) for i in range(n)]
 
